@@ -13,7 +13,7 @@ import gen_toml as G
 PROP = "C02"
 COQ_PROPS = "Props/C02.v"
 COQ_PROPS_EXTRA = ["Props/C02tokens.v", "Props/C02doc.v", "Props/C02front.v", "Props/C02front2.v", "Props/C02acc.v", "Props/C02accv.v"]
-THEOREMS = ["Props/C02acc.v (25 theorems): the READ API of the decoded tree (Item / Value type_name, is_x, as_x, as_table_like, Item::get by key and index, Array::get, InlineTable::get, doc[k]; Model/Accessors.v from value.rs, item.rs, index.rs) reads that tree faithfully: kinds exclusive and exhaustive, every downcast answers exactly on its own kind with the stored scalar (C02acc_read_scalar), Item's duplicates are the value's own, type names = flags, lookups hand out what iteration hands out and never a placeholder, and on every accepted document doc[k] / Item::get(k) find every root entry (C02acc_parsed_root_lookup, through parse_WF); Props/C02accv.v (10 theorems): the same for toml::Value (Model/AccessorsToml.v from crates/toml/src/value.rs): same_type is exactly equality of type_str and an equivalence, flags = same_type against one probe per kind, every as_x answers exactly on its own constructor, get(i) / get(key) hand out the stored element / entry and None elsewhere, reading a Map alternately from both ends hands out every entry exactly once",
+THEOREMS = ["Props/C02acc.v (27 theorems): the READ API of the decoded tree (Item / Value type_name, is_x, as_x, as_table_like, Item::get by key and index, Array::get, InlineTable::get, doc[k]; Model/Accessors.v from value.rs, item.rs, index.rs) reads that tree faithfully: kinds exclusive and exhaustive, every downcast answers exactly on its own kind with the stored scalar (C02acc_read_scalar), Item's duplicates are the value's own, type names = flags, lookups hand out what iteration hands out and never a placeholder, and on every accepted document doc[k] / Item::get(k) find every root entry (C02acc_parsed_root_lookup, through parse_WF); Props/C02accv.v (10 theorems): the same for toml::Value (Model/AccessorsToml.v from crates/toml/src/value.rs): same_type is exactly equality of type_str and an equivalence, flags = same_type against one probe per kind, every as_x answers exactly on its own constructor, get(i) / get(key) hand out the stored element / entry and None elsewhere, reading a Map alternately from both ends hands out every entry exactly once",
             "C02_tree (Props/C02doc.v): for every accepted document and every valid derivation of its text the decoded tree is the tree the statements denote - keys, nesting, order, kinds, every scalar, exact decimals of floats, date-time fields; derivations agree",
             "Props/C02tokens.v: the value half of every token lemma (strings with all escapes, integers in four bases, floats as exact decimals, booleans, date-times); Props/C02front.v / C02front2.v: the toml::Value / Table front ends decode to the same data (names in coverage.theorem_names)"]
 RULE = ("valid abstract documents rendered in every spelling + per-spelling value tables; non-trivial = document with "
